@@ -16,7 +16,9 @@ F64_BITS = [0x0, 0x8000000000000000, 0x3FF0000000000000, 0xBFF0000000000000, 0x7
             0xFFF0000000000000, 0x7FF8000000000000, 0xFFF8000000000000, 0x7FF8000000000001, 0x7FFFFFFFFFFFFFFF,
             0x1, 0x000FFFFFFFFFFFFF, 0x0010000000000000, 0x7FEFFFFFFFFFFFFF, 0x3FB999999999999A, 0x4005BF0A8B145769]
 STRINGS = ["", "a", "hello", "héllo wörld", "日本語テキスト", "😀🎉", "a\x00b", "line\nbreak\ttab", "\"quoted\" \\back",
-           "߿ࠀ￿", "x" * 127, "y" * 128, "\U0001F600" * 40, " leading and trailing ", "null", "{}", "[1,2]"]
+           "߿ࠀ￿", "x" * 127, "y" * 128, "\U0001F600" * 40, " leading and trailing ", "null", "{}", "[1,2]",
+           # characters that some line splitters, decoders or terminals treat specially but that are ordinary string content
+           "a\u0085b", "line\u2028sep\u2029para", "\ufeffbom", "cr\rlf\r\nend", "\x7fdel\x1f\x0b\x0c\x1c", "nbsp\u00a0zw\u200b"]
 
 DATE_MIN = -719162          # 0001-01-01
 DATE_MAX = 2932896          # 9999-12-31
